@@ -7,11 +7,13 @@
  *   P <slot> <path>                       clockbound_open into a slot that stays open
  *   Q <slot> <rs> <rns> <ms> <mns>        clockbound_now on an open slot
  *   R <slot>                              clockbound_close the slot
+ *   M                                     print the number of open file descriptors and of memory mappings
  *   F <call> <nth> <errno>                the nth (0-based) open (0) / read (1) / mmap (2) made from now on fails once
  * open, read and mmap are defined here as well (pass-through system calls), so that a transient failure of
  * one of them inside the library can be scripted.
  */
 #define _GNU_SOURCE
+#include <dirent.h>
 #include <errno.h>
 #include <fcntl.h>
 #include <stdarg.h>
@@ -32,7 +34,7 @@ static int reads_real = 0, reads_mono = 0, first_read = -1;
 int clock_gettime(clockid_t clk, struct timespec *ts) {
         if (!v_on)
                 return (int)syscall(SYS_clock_gettime, clk, ts);
-        int is_real = (clk == CLOCK_REALTIME || clk == CLOCK_REALTIME_COARSE);
+        int is_real = (clk == CLOCK_REALTIME || clk == CLOCK_REALTIME_COARSE || clk == CLOCK_TAI);
         if (first_read < 0)
                 first_read = is_real ? 0 : 1;
         if (is_real) reads_real++; else reads_mono++;
@@ -41,6 +43,9 @@ int clock_gettime(clockid_t clk, struct timespec *ts) {
                 return -1;
         }
         *ts = is_real ? v_real : v_mono;
+        /* as in the harness's own virtual clock: TAI = realtime + 37 s, boot time = monotonic + 1 h of suspension */
+        if (clk == CLOCK_TAI) ts->tv_sec += 37;
+        if (clk == CLOCK_BOOTTIME || clk == CLOCK_BOOTTIME_ALARM) ts->tv_sec += 3600;
         return 0;
 }
 
@@ -103,6 +108,16 @@ int main(void) {
                         v_on = 0;
                         if (e) print_err("now", e);
                         else printf("now ok %lld %lld %lld %lld %d\n", (long long)res.earliest.tv_sec, (long long)res.earliest.tv_nsec, (long long)res.latest.tv_sec, (long long)res.latest.tv_nsec, (int)res.clock_status);
+                        fflush(stdout);
+                        continue;
+                }
+                if (line[0] == 'M') {
+                        int fds = 0, maps = 0, ch;
+                        DIR *d = opendir("/proc/self/fd");
+                        if (d) { struct dirent *e; while ((e = readdir(d))) if (e->d_name[0] != '.') fds++; closedir(d); fds--; }
+                        FILE *f = fopen("/proc/self/maps", "r");
+                        if (f) { while ((ch = fgetc(f)) != EOF) if (ch == '\n') maps++; fclose(f); }
+                        printf("res %d %d\n", fds, maps);
                         fflush(stdout);
                         continue;
                 }
